@@ -45,7 +45,20 @@ class CheckC17(core.Check):
         sessions.add_pair(c, parsed, keys, rng=("script:%d" % seed, "script:%d" % (seed + 1)), supply=supply, rec=("-", "-"))
         c.op("obs", "A")
         c.op("obs", "B")
-        sessions.add_handshake(c, parsed, ["gen:%d:x%d" % (rnd.randrange(0, 40), i) for i in range(parsed.nmsgs)])
+        faults = []
+        for i in range(parsed.nmsgs):
+            w, r = ("A", "B") if i % 2 == 0 else ("B", "A")
+            c.op("hs_write", w, pay="gen:%d:x%d" % (rnd.randrange(0, 40), i), buf=sessions.BIGBUF, out="m%d" % i)
+            if rnd.random() < 0.3:
+                # a tampered copy first: the read must fail and the reported key must not move
+                kind = rnd.choice(["last", "first", "trunc"])
+                mut = {"last": "~xor:0:00", "first": "~flip:0", "trunc": "~trunc:1"}[kind]
+                if kind == "last":
+                    faults.append(c.op("hs_read", r, msg="$m%d~ext:00" % i, buf=sessions.BIGBUF))
+                else:
+                    faults.append(c.op("hs_read", r, msg="$m%d%s" % (i, mut), buf=sessions.BIGBUF))
+            c.op("hs_read", r, msg="$m%d" % i, buf=sessions.BIGBUF)
+        c.meta["faults"] = faults
         stateless = rnd.random() < 0.5
         sessions.add_convert(c, stateless=stateless)
         plan = [(0 if parsed.oneway else rnd.randrange(2), "gen:%d:y%d" % (rnd.randrange(0, 40), k)) for k in range(3)]
@@ -84,7 +97,13 @@ class CheckC17(core.Check):
                 if e.panic:
                     r.foreign_dev("C10", "panic at %s" % e.op)
                 break
-            if e.op == "hs_read":
+            if e.op == "hs_read" and e.label.isdigit() and int(e.label) in case.meta.get("faults", ()):
+                if e.ok:
+                    # the tampered copy was accepted (possible for an all-cleartext message): the session is no longer honest
+                    r.stats["tampered_copy_accepted_unjudged"] += 1
+                    break
+                r.stats["failed_reads_observed"] += 1
+            elif e.op == "hs_read":
                 if not e.ok:
                     r.foreign_dev("C02", "honest read failed")
                     break
